@@ -356,6 +356,59 @@ main (void)
             }
           fprintf (out, "]}\n");
         }
+      else if (!strcmp (cmd, "pbkdf2sel"))
+        { /* pbkdf2sel pass salt c dklen i1,i2,... : a long derived key, of which the listed blocks (1-based) are reported */
+          long pl = unhex (a0, m1), sl = unhex (a1, m2);
+          unsigned long c = strtoul (a2, 0, 10);
+          size_t dkl = (size_t) atol (a3);
+          unsigned char *dk = malloc (dkl ? dkl : 1);
+          PBKDF2_SHA256 (m1, (size_t) pl, m2, (size_t) sl, c, dk, dkl);
+          fprintf (out, "{\"e\":\"pbkdf2sel\",\"pass\":");
+          jarr (m1, (size_t) pl);
+          fprintf (out, ",\"salt\":");
+          jarr (m2, (size_t) sl);
+          fprintf (out, ",\"c\":%lu,\"dklen\":%zu,\"blocks\":[", c, dkl);
+          char *save = 0, list[256];
+          snprintf (list, sizeof list, "%s", a4);
+          int firstb = 1;
+          for (char *tok = strtok_r (list, ",", &save); tok; tok = strtok_r (0, ",", &save))
+            {
+              size_t blk = (size_t) strtoul (tok, 0, 10);
+              if (!blk || (blk - 1) * 32 >= dkl)
+                continue;
+              size_t n = dkl - (blk - 1) * 32 < 32 ? dkl - (blk - 1) * 32 : 32;
+              fprintf (out, "%s{\"i\":%zu,\"dk\":", firstb ? "" : ",", blk);
+              firstb = 0;
+              jarr (dk + (blk - 1) * 32, n);
+              fprintf (out, "}");
+            }
+          fprintf (out, "],\"facts\":[");
+          snprintf (list, sizeof list, "%s", a4);
+          int first = 1;
+          for (char *tok = strtok_r (list, ",", &save); tok; tok = strtok_r (0, ",", &save))
+            {
+              size_t blk = (size_t) strtoul (tok, 0, 10);
+              unsigned char u[32];
+              memcpy (m3, m2, (size_t) sl);
+              m3[sl] = (unsigned char) (blk >> 24); m3[sl + 1] = (unsigned char) (blk >> 16);
+              m3[sl + 2] = (unsigned char) (blk >> 8); m3[sl + 3] = (unsigned char) blk;
+              size_t ml = (size_t) sl + 4;
+              for (unsigned long j = 1; j <= c; j++)
+                {
+                  HMAC_SHA256_Buf (m1, (size_t) pl, m3, ml, u);
+                  fprintf (out, "%s{\"m\":", first ? "" : ",");
+                  first = 0;
+                  jarr (m3, ml);
+                  fprintf (out, ",\"d\":");
+                  jarr (u, 32);
+                  fprintf (out, "}");
+                  memcpy (m3, u, 32);
+                  ml = 32;
+                }
+            }
+          fprintf (out, "]}\n");
+          free (dk);
+        }
       else if (!strcmp (cmd, "des"))
         { /* des key8 salt count in8 decrypt */
           unsigned char k[8], in[8], o[8];
